@@ -21,6 +21,14 @@ static void describe(sb_t* b, const carquet_schema_t* s) { char hn[11000];
         if (n) sb_add(b, "F %d %d", l, carquet_schema_find_column(s, carquet_schema_node_name(n))); }
     if (carquet_schema_get_element(s, ne) != NULL || carquet_schema_get_element(s, -1) != NULL) sb_add(b, "X out-of-range element index not NULL");
     if (carquet_schema_find_column(s, "\x01no-such-column\x02") != -1) sb_add(b, "X find_column of unknown name != -1");
+    /* derived probes: every leaf name with its last byte removed, with a byte appended and with the case of its first byte flipped.
+     * Expected = first leaf whose whole name equals the probe (brute force over the leaf names, which the L lines above pin to the
+     * reference), usually -1: catches prefix, suffix-tolerant and case-insensitive matching. */
+    for (int l = 0; l < nl && l < 400; l++) { const carquet_schema_node_t* n = carquet_schema_get_element(s, s->leaf_indices[l]); if (!n) continue; const char* nm = carquet_schema_node_name(n); size_t L = strlen(nm); if (L > 10000) continue; char* pr = malloc(L + 3);
+        for (int k = 0; k < 3; k++) { if (k == 0) { if (!L) continue; memcpy(pr, nm, L - 1); pr[L - 1] = 0; } else if (k == 1) { memcpy(pr, nm, L); pr[L] = 'x'; pr[L + 1] = 0; } else { if (!L || !((nm[0] | 32) >= 'a' && (nm[0] | 32) <= 'z')) continue; memcpy(pr, nm, L + 1); pr[0] ^= 32; }
+            int exp = -1; for (int q = 0; q < nl; q++) { const carquet_schema_node_t* m = carquet_schema_get_element(s, s->leaf_indices[q]); if (m && !strcmp(carquet_schema_node_name(m), pr)) { exp = q; break; } }
+            int got = carquet_schema_find_column(s, pr); v_count("find_column_derived_probes"); if (got != exp) { sb_add(b, "X find_column(%s of leaf %d's name) = %d, first leaf with exactly that name is %d", k == 0 ? "proper prefix" : k == 1 ? "extension" : "case variant", l, got, exp); break; } }
+        free(pr); }
 }
 static void first_diff(const char* a, const char* b, char* la, char* lb, size_t cap) { la[0] = lb[0] = 0; while (*a || *b) { const char* ea = strchr(a, '\n'); const char* eb = strchr(b, '\n'); size_t na = ea ? (size_t)(ea - a) : strlen(a), nb = eb ? (size_t)(eb - b) : strlen(b);
         if (na != nb || memcmp(a, b, na)) { snprintf(la, cap, "%.*s", (int)(na < cap - 1 ? na : cap - 1), a); snprintf(lb, cap, "%.*s", (int)(nb < cap - 1 ? nb : cap - 1), b); return; } a = ea ? ea + 1 : a + na; b = eb ? eb + 1 : b + nb; } }
